@@ -401,6 +401,19 @@ func checkStrObserved(r *vlib.Run, it strItem, idx int, o obs14, _ string) {
 		r.Violation("literal.string.accepted-but-reference-rejects", ref.reason, it.c.id, w(map[string]any{"decoded_hex": fmt.Sprintf("%x", gotB), "default_value": bdv}))
 		return
 	}
+	for _, e := range ref.elems {
+		if e.class == "raw-invalid-utf8" {
+			// What protoc does with a raw byte that is not valid UTF-8 inside a literal is remembered
+			// (bytes pass through), not recorded in any oracle available here: observed, never decided
+			// (DESIGN.md §3). protocompile decodes such a byte as U+FFFD.
+			if bytes.Equal(gotB, ref.value) {
+				r.Class("observed.raw-invalid-utf8.passed-through")
+			} else {
+				r.Class("observed.raw-invalid-utf8.decoded-as-" + firstDifferingElem(ref, gotB))
+			}
+			return
+		}
+	}
 	if !bytes.Equal(gotB, ref.value) {
 		r.Violation("literal.string.decoded-bytes-differ", "first differing element: "+firstDifferingElem(ref, gotB)+" at=bytes-default", it.c.id,
 			w(map[string]any{"decoded_hex": fmt.Sprintf("%x", gotB), "default_value": bdv}))
